@@ -553,6 +553,24 @@ fn evaluate_binary_op(left: &ArrayRef, op: BinaryOp, right: &ArrayRef) -> Result
     let right = &normalize(right)?;
     // Handle type coercion
     let (left, right) = coerce_arrays(left, right)?;
+    // arrow's comparison kernels order floats by IEEE totalOrder, where
+    // -0.0 < +0.0. SQL (and the compiled predicate evaluator, which compares
+    // native f64) has -0.0 = +0.0, so `v >= 0.0` kept a -0.0 row on one
+    // evaluator and dropped it on the other -- the answer depended on which
+    // of the two a batch happened to take. Canonicalise the zero's sign.
+    let (left, right) = if matches!(
+        op,
+        BinaryOp::Eq
+            | BinaryOp::NotEq
+            | BinaryOp::Lt
+            | BinaryOp::LtEq
+            | BinaryOp::Gt
+            | BinaryOp::GtEq
+    ) {
+        (positive_zero(left), positive_zero(right))
+    } else {
+        (left, right)
+    };
 
     match op {
         BinaryOp::Eq => compare_arrays(&left, &right, |l, r| cmp::eq(l, r)),
@@ -712,6 +730,21 @@ fn coerce_numeric_types(left: &DataType, right: &DataType) -> Result<DataType> {
             left, right
         ))),
     }
+}
+
+/// A float array with every -0.0 replaced by +0.0 (`x + 0.0`; other values,
+/// NaN included, are unchanged). Non-float arrays are returned as they are.
+fn positive_zero(arr: ArrayRef) -> ArrayRef {
+    use arrow::array::{Float32Array, Float64Array};
+    if let Some(a) = arr.as_any().downcast_ref::<Float64Array>() {
+        let out: Float64Array = arrow::compute::unary(a, |x| x + 0.0);
+        return Arc::new(out);
+    }
+    if let Some(a) = arr.as_any().downcast_ref::<Float32Array>() {
+        let out: Float32Array = arrow::compute::unary(a, |x| x + 0.0);
+        return Arc::new(out);
+    }
+    arr
 }
 
 fn compare_arrays<F>(left: &ArrayRef, right: &ArrayRef, f: F) -> Result<ArrayRef>
